@@ -13,7 +13,7 @@ class C08(c07.NetCheck):
     assumptions = [
         "the fiber scheduler is the system under test and is not perturbed: interleavings are those the shipped run queue produces for the generated network",
         "when the ideal model allows both completion and deadlock either is accepted",
-        "verdict zone: a channel is closed only by its unique sending fiber after its last send; no channel operations inside native callbacks",
+        "verdict zone: a channel is closed only by a fiber that has itself used it before the close (sends of other fibers into it are guarded); no channel operations inside native callbacks",
     ]
 
 
